@@ -227,6 +227,32 @@ def check_state(conf, hist, G0, M):
             if changed:
                 F = fresh()
                 dn.freeze(F)
+    # an unfrozen copy derived from the frozen graph can be grown freely -- the frozen graph must not move
+    F = fresh()
+    dn.freeze(F)
+    Fsnap = observe.snapshot(F, conf, times)
+    for conv in (('to_undirected',) if F.is_directed() else ('to_directed',)) + ('time_slice',):
+        try:
+            ids_ = F.temporal_snapshots_ids()
+            D = F.time_slice(ids_[0], ids_[-1]) if conv == 'time_slice' and ids_ else (getattr(F, conv)() if conv != 'time_slice' else None)
+        except Exception:
+            D = None
+        if D is None:
+            continue
+        for it in list(D.out_interactions() if D.is_directed() else D.interactions()):
+            tl = it[2].get('t') or []
+            if tl:
+                for (t_, e_) in ((tl[-1][1] + 1, None), (tl[-1][1], tl[-1][1] + 3)):
+                    try:
+                        D.add_interaction(it[0], it[1], t_) if e_ is None else D.add_interaction(it[0], it[1], t_, e_)
+                    except Exception:
+                        pass
+        cnt['frozen_calls'] += 1
+        s1 = observe.snapshot(F, conf, times)
+        if s1 != Fsnap:
+            bad('frozen-graph-changed-through-derived-copy', {'derived by': conv, 'changed': observe.snapshot_diff(Fsnap, s1)}, conv=conv)
+            F = fresh()
+            dn.freeze(F)
     return trip, cnt
 
 
